@@ -1,5 +1,6 @@
 import TexcraftModel.Lemmas.C18
 import TexcraftModel.Lemmas.C18Cst
+import TexcraftModel.Lemmas.C18Build
 
 /-!
 # C18 — the Box language: property theorems
@@ -15,6 +16,9 @@ Leaf level (text ⇄ token values)
 * `glue_order_keyword`, `glue_order_unit`
 
 Token level
+* `parse_print`       printing any expressible list (all 13 node kinds, nested, runs of
+                      characters merged per font) and parsing the tokens back gives the list
+* `parse_print_each`  the same for the per-element printer (`Display for ds::Horizontal`)
 * `parse_print_cst`   parsing a pretty-printed CST gives the CST back, with any continuation
 * `format_idempotent`, `format_preserves_meaning`
 -/
@@ -170,5 +174,72 @@ theorem format_preserves_meaning (toks toks' : List BTok) (h : formatToks toks =
 
 example : formatToks [.kw ['k'], .lparen, .dim 5, .comma, .rparen] =
     some [.kw ['k'], .lparen, .dim 5, .rparen] := by decide
+
+/-! ## Token level: lists -/
+
+/-- **The round trip.** For every list the language can express (`exprList`: all node kinds,
+glue of all orders, normal kerns, rules with running dimensions, ligatures, discretionaries,
+nested boxes, insertions, marks, adjusts, math; any characters; dimensions up to TeX's
+`max_dimen`), in every list kind, printing with the list printer and parsing the tokens back
+gives the same list. `ScaledRoundTrip` is needed for one thing only: the glue ratio of an
+hbox travels as decimal text inside a string token. -/
+theorem parse_print (H : ScaledRoundTrip) (m : Mode) (l : List Node) (he : exprList m l = true) :
+    parseToks m (printNodes m l) = some l := by
+  unfold parseToks printNodes
+  rw [parseSource_printCalls]
+  exact build_lower H m l he
+
+/-- The same for the printer that boxworks-testing uses (one `Display` per element, no merging
+of character runs across elements). -/
+theorem parse_print_each (H : ScaledRoundTrip) (l : List Node) (he : exprList .H l = true) :
+    parseToks .H (printCalls (lowerEach l)) = some l := by
+  unfold parseToks
+  rw [parseSource_printCalls]
+  exact build_each H l _ (by omega) he
+
+/-- A non-trivial list meeting the hypothesis: merged character runs in two fonts (one above
+`i32::MAX`), infinite glue, a running rule, a ligature, a discretionary, nested boxes, an
+insertion, a mark, an adjust and math nodes. -/
+example : exprList .H
+    [.char 'a' 1, .char '"' 1, .char 'ä' 4294967295, .glue 0 65536 3 .fil (-5) .filll,
+     .hbox 1 2 3 4 43000 .fill [.char 'x' 0, .kern 0 (-1073741823),
+       .disc [.char '-' 0, .lig 'f' ['f', 'i'] 3 true false] [.rule running 5 6] 1],
+     .vbox 0 0 0 0 false [.penalty (-10000), .mark 0, .ins 255 1 2 3 4 .normal 5 .fil 7 [.math true]],
+     .adjust [.glue 0 0 2147483647 .fill 0 .normal], .math false] = true := by decide
+
+/-! ## Boundaries: values the language cannot express (negation witnesses)
+
+`exprList` excludes exactly these; each line shows that the restriction is needed. -/
+
+/-- A dimension of 16384pt = 2^30 sp is printed (`16384.0pt`) but the lexer rejects it. -/
+example : lexNumber false ['1', '6', '3', '8', '4', '.', '0', 'p', 't'] = .err := by rfl
+/-- `i32::MIN` is printed (`-2147483648`) but the lexer rejects it (integers are in (-2^31, 2^31)). -/
+example : lexNumber true ['2', '1', '4', '7', '4', '8', '3', '6', '4', '8'] = .err := by rfl
+/-- A rule dimension of exactly -2^31 sp *is* "running" (there is no other way to write it). -/
+example : runningVal (-2147483648) = .str ['r', 'u', 'n', 'n', 'i', 'n', 'g'] := by rfl
+/-- Kern kinds, glue kinds, mark contents and the glue set of a vbox have no syntax. -/
+example : lowerNode (.kern 1 5) = lowerNode (.kern 0 5) := rfl
+example : lowerNode (.mark 2) = lowerNode (.mark 0) := rfl
+example : lowerNode (.vbox 1 2 3 4 true []) = lowerNode (.vbox 1 2 3 4 false []) := rfl
+/-- A font (or replace count, float penalty) of exactly 2^31 prints as `-2147483648`. -/
+example : toI32 2147483648 = -2147483648 := by decide
+
+/-! ## The full statement (text level), not proved
+
+Composing the leaf theorems with `parse_print` into one statement about *text* needs a
+rendering of token lists to characters and a proof that the lexer inverts it for every
+token sequence and layout (whitespace, comments, commas, the bracket pre-pass). That part of
+the real lexer is tied to the model by the correspondence check only. -/
+def C18_full_statement : Prop :=
+  ScaledRoundTrip → ∀ (render : List BTok → List Char), (∀ toks, lex (render toks) = .ok toks) →
+    ∀ (m : Mode) (l : List Node), exprList m l = true →
+      parseText m (render (printNodes m l)) = .ok l
+
+/-- …which follows from `parse_print` for any renderer the lexer inverts. -/
+theorem full_statement_of_lexer_inverse : C18_full_statement := by
+  intro H render hr m l he
+  unfold parseText
+  rw [hr]
+  simp only [parse_print H m l he]
 
 end C18
